@@ -214,6 +214,9 @@ class CrashWorld(World):
         self.slow = None  # (statement index, us) for the next op
         self.stats = collections.Counter()
         self.last_point = None
+        self._in_txn = False
+        self._files_dirty = True
+        self._last_key = None
         self.gstmt = 0  # statements of the live store since the run began
         self.kill_at = None  # (global statement number, mode): really die there (selftest crashstub)
         self.strict = True  # raise on the first failing crash point (C06); C18 turns this off
@@ -225,6 +228,9 @@ class CrashWorld(World):
         seams.STMT.callback = None
         ds = super().open()
         seams.STMT.callback = self._on_stmt
+        self._in_txn = False
+        self._files_dirty = True
+        self._last_key = None
         self.t_open = seams.CLOCK.peek()
         return ds
 
@@ -248,12 +254,24 @@ class CrashWorld(World):
             self.slow = None
         if not self.inflight:
             return
+        head = sql.lstrip()[:9].upper()
         take = self.density >= 1.0
         if not take and self.density > 0:
-            head = sql.lstrip()[:6].upper()
-            take = head == "COMMIT" or self.sample_rng.random() < self.density
+            take = head.startswith("COMMIT") or self.sample_rng.random() < self.density
         if take:
-            self.crash_point("stmt")
+            # Sampling heuristic (not an oracle): if every statement since the last hashed snapshot ran
+            # inside an open transaction, SQLite has written nothing that a reopened process would see
+            # (cache spills are frames without a commit marker), so the previous snapshot stands.
+            self.crash_point("stmt", reuse=not self._files_dirty)
+            self._files_dirty = False
+        # what statement k (about to run) does to the files, for the boundary before statement k+1
+        if head.startswith(("BEGIN", "SAVEPOINT")):
+            self._in_txn = True
+        elif head.startswith(("COMMIT", "END", "ROLLBACK", "RELEASE")):
+            self._in_txn = False
+            self._files_dirty = True
+        elif not self._in_txn:
+            self._files_dirty = True  # autocommit statement
 
     def _snapshot_key(self):
         h = hashlib.blake2b(digest_size=16)
@@ -271,9 +289,14 @@ class CrashWorld(World):
                 h.update(data)
         return h.hexdigest(), parts
 
-    def crash_point(self, kind):
+    def crash_point(self, kind, reuse=False):
         """Hypothetical branch: the process dies now."""
-        key, parts = self._snapshot_key()
+        if reuse and self._last_key is not None:
+            key, parts = self._last_key, None
+            self.stats["snapshots_reused_inside_transaction"] += 1
+        else:
+            key, parts = self._snapshot_key()
+            self._last_key = key
         if key not in self.snaps:
             prefix = os.path.join(self.rundir, "snap-%s.sqlite" % key)
             for suf, data in zip(("", "-wal", "-journal"), parts):
@@ -383,7 +406,7 @@ class CrashWorld(World):
         self.gen += 1
         newpath = os.path.join(self.rundir, "db-%d.sqlite" % self.gen)
         self.snapshot_files(newpath)
-        self.check_model_follows_store()
+        hL = self.live_hash()
         self._release()
         for suf in ("", "-wal", "-journal", "-shm"):
             try:
@@ -391,7 +414,8 @@ class CrashWorld(World):
             except OSError:
                 pass
         self.path = newpath
-        done = self.evaluate_pending()
+        done = self.evaluate_pending(strict=False)
+        self.attribute(hL, done)
         last = done[-1]
         if last["found"] is None:
             raise Abandon("restart point matches no acceptable prefix: " + last["fail"][1], "C06")
@@ -415,25 +439,56 @@ class CrashWorld(World):
     def restart_clean(self):
         return self._restart(False)
 
-    def check_model_follows_store(self):
-        """Guard against blaming C06 for a functional defect: what the *live* connection shows must
-        be the model's S_n.  If not, the model mispredicted the writes an op performed (C02/C04's
-        subject) and the crash oracle would be comparing against the wrong write log."""
+    def live_hash(self):
+        """Hash (same scheme as snapshots) of what the live connection shows right now."""
         live = self.dump()
-        want = {b: sorted(c for c in evs.values()) for b, evs in self.model.events.items()}
-        got = {b: sorted(t[1:] for t in v["events"]) for b, v in live.items()}
-        if got != want:
+        h = 0
+        for b, v in live.items():
+            h += meta_item(b, {k: v["meta"][k] for k in ("id", "type", "client", "hostname", "created_us", "name", "data")})
+            for t in v["events"]:
+                h += ev_item(b, t[1:])
+        return h & MASK
+
+    def attribute(self, hL, done):
+        """After an epoch's crash points were evaluated: decide what a failure means.
+
+        * live store == model: the write log is right, so a failing crash point is a C06 violation;
+        * live store == model minus a block of acknowledged-but-buffered writes (j_k, n_k] observed at
+          some op return k: an operation discarded buffered writes while the process was alive -- the
+          database no longer holds a prefix of the writes performed: C06 violation, attributed there;
+        * anything else: the model mispredicted what an op wrote (functional defect, C02/C04/C05's
+          subject): the run is abandoned for C06."""
+        m = self.model
+        follows = hL == m.hashes[ORDERS[0]][m.n]
+        if not follows:
+            for pt in done:
+                if pt["kind"] not in ("return",) or not pt.get("found"):
+                    continue
+                o, j, _ = pt["found"]
+                nk = pt["n"]
+                if j >= nk:
+                    continue
+                hs = m.hashes[o]
+                if (hs[m.n] - hs[nk] + hs[j]) & MASK == hL:
+                    raise Violation(
+                        "prefix",
+                        "%s (step %d) discarded %d acknowledged, still buffered writes while the process was alive: the live store now shows everything issued except writes %d..%d, so no later crash can leave a prefix"
+                        % (pt["op"], pt["step"], nk - j, j + 1, nk),
+                        {"op": pt["op"], "step_index": pt["step"], "kind": "discarded_buffer"},
+                    )
             raise Abandon("the live store's contents differ from the reference write log (functional defect, not a crash matter)", "C02")
-        for b, m in self.model.meta.items():
-            gm = live[b]["meta"]
-            if any(gm.get(k) != v for k, v in m.items()):
-                raise Abandon("live bucket metadata differs from the reference write log (functional defect)", "C05")
+        if self.strict:
+            for pt in done:
+                if pt.get("fail"):
+                    tag, text = pt["fail"]
+                    raise Violation(tag, text, {"op": pt["op"], "step_index": pt["step"], "crash_kind": pt["kind"], "stmt": pt["stmt"]})
 
     def finish(self):
-        pt = self.crash_point("end")
-        self.check_model_follows_store()
+        self.crash_point("end")
+        hL = self.live_hash()
         self.close(clean=False)
-        self.evaluate_pending()
+        done = self.evaluate_pending(strict=False)
+        self.attribute(hL, done)
 
     # ------------------------------------------------------------------ target resolution (model mode)
     def known(self, b):
@@ -451,12 +506,13 @@ class CrashWorld(World):
         op = step["op"]
         self.cur_op = op
         self.stmt_in_op = 0
+        self._files_dirty = True
         fn = getattr(self, "mop_" + op, None)
         if fn is None:
             raise HarnessError("unknown op %r in crash mode" % op)
         return fn(step)
 
-    def _run(self, variants, bucket_level, call, *a, **k):
+    def _run(self, variants, bucket_level, call, *a, expect_reject=False, **k):
         """Issue writes to the model, run the real call with crash points armed, mark returned."""
         m = self.model
         n_before = m.n
@@ -467,6 +523,12 @@ class CrashWorld(World):
             out = self._call(call, *a, **k)
         finally:
             self.inflight = False
+        if expect_reject:
+            if out["exc"] is None:
+                raise Abandon("an operation on a missing bucket was accepted (%s): its writes cannot be modelled" % self.cur_op, "C05")
+            self.probes["rejected_op_with_buffered_writes" if m.n > m.d else "rejected_op"] += 1
+            out["rejected"] = out["exc"]
+            out["exc"] = None
         if out["exc"] is not None:
             if self.restarted:
                 raise Violation("progress_after_restart", "after a crash and restart the store rejected a valid %s: %r" % (self.cur_op, out["exc"]), {"op": self.cur_op})
@@ -495,12 +557,18 @@ class CrashWorld(World):
         if "data" in m:
             kw["data"] = m["data"]
         w = [W("meta", b, None, None, expected_meta(b, m), s.get("seq"), False)]
-        return self._run(self._same(w), True, self.ds.create_bucket, b, type=m["type"], client=m["client"], hostname=m["hostname"], created=us_to_dt(m["created_us"], m.get("off", 0)), **kw)
+        out = self._run(self._same(w), True, self.ds.create_bucket, b, type=m["type"], client=m["client"], hostname=m["hostname"], created=us_to_dt(m["created_us"], m.get("off", 0)), **kw)
+        self.handles[b] = out["ret"]
+        self.stale.pop(b, None)
+        return out
 
     def mop_update(self, s):
         b = s["b"]
         if b not in self.model.meta:
-            return {"skipped": "no bucket"}
+            f = dict(s["fields"])
+            if "type" in f:
+                f["type_id"] = f.pop("type")
+            return self._run(self._same([]), False, self.ds.update_bucket, b, expect_reject=True, **f)
         old = self.model.meta[b]
         new = dict(old)
         f = dict(s["fields"])
@@ -511,15 +579,27 @@ class CrashWorld(World):
         w = [W("meta", b, None, old, new, None, False)]
         return self._run(self._same(w), True, self.ds.update_bucket, b, **f)
 
+    def mop_insert_stale(self, s):
+        """Insert through a handle of a bucket deleted since: expected to be rejected, no writes."""
+        b = s["b"]
+        h = self.stale.get(b)
+        if h is None or b in self.model.meta:
+            return {"skipped": "no stale handle"}
+        arg = [mk_event(it["ev"]) for it in s["evs"]] if "evs" in s else mk_event(s["ev"])
+        return self._run(self._same([]), False, h.insert, arg, expect_reject=True)
+
     def mop_delete_bucket(self, s):
         b = s["b"]
         if b not in self.model.meta:
-            return {"skipped": "no bucket"}
+            return self._run(self._same([]), False, self.ds.delete_bucket, b, expect_reject=True)
         ws = [W("ev", b, u, c, None, None, False) for u, c in sorted(self.model.events[b].items())]
         ws.append(W("meta", b, None, self.model.meta[b], None, None, False))
         if len(ws) > 1:
             self.probes["delete_bucket_with_events"] += 1
-        return self._run(self._same(ws), True, self.ds.delete_bucket, b)
+        out = self._run(self._same(ws), True, self.ds.delete_bucket, b)
+        if b in self.handles:
+            self.stale[b] = self.handles.pop(b)
+        return out
 
     def mop_insert1(self, s):
         b = s["b"]
